@@ -389,6 +389,9 @@ async fn run_inner(sc: &C16Scenario) -> u64 {
             Return(usize),
             Take(usize),
             Prepare(usize, usize, usize, bool, bool),
+            /// two prepares in flight at once on one client (`join!`): for the
+            /// same key, or for two keys differing only in their types
+            PreparePair(usize, bool),
             CacheClear(usize),
             CacheRemove(usize, usize, usize),
             RegClear,
@@ -412,6 +415,8 @@ async fn run_inner(sc: &C16Scenario) -> u64 {
             // through a transaction (shares the client's statement cache)
             ops.push(Op::Prepare(j, 0, 1, true, true));
             ops.push(Op::Prepare(j, 0, 0, false, true));
+            ops.push(Op::PreparePair(j, true));
+            ops.push(Op::PreparePair(j, false));
             ops.push(Op::Take(j));
             ops.push(Op::CacheClear(j));
             ops.push(Op::CacheRemove(j, 0, 1));
@@ -555,6 +560,46 @@ async fn run_inner(sc: &C16Scenario) -> u64 {
                 }
                 if o.statement_cache.size() != refs[&id].keys.len() {
                     bad("cache-size", format!("statement cache of connection {} reports size {} but {} keys are cached", id, o.statement_cache.size(), refs[&id].keys.len()));
+                }
+            }
+            Op::PreparePair(j, same) => {
+                let (o, id) = &mut held[j];
+                let id = *id;
+                let q = QUERIES[0];
+                let (ta, tb) = (types_of(1), if same { types_of(1) } else { types_of(2) });
+                let ka = (q.to_string(), ta.iter().map(|t| t.oid()).collect::<Vec<u32>>());
+                let kb = (q.to_string(), tb.iter().map(|t| t.oid()).collect::<Vec<u32>>());
+                let before = w(|w| significant(&w.conns[id].log));
+                let (ra, rb) = tokio::join!(o.prepare_typed_cached(q, &ta), o.prepare_typed_cached(q, &tb));
+                let after: Vec<Msg> = w(|w| significant(&w.conns[id].log));
+                let new: Vec<Msg> = after[before.len()..].to_vec();
+                let hits = usize::from(refs[&id].keys.contains(&ka)) + usize::from(refs[&id].keys.contains(&kb));
+                if let (Ok(sa), Ok(sb)) = (&ra, &rb) {
+                    // a cached key causes no traffic; an uncached one is prepared
+                    // (once per call that missed)
+                    let parses = new.iter().filter(|m| matches!(m, Msg::Parse { query, .. } if query == q)).count();
+                    if parses != new.len() || parses > 2 - hits || (hits < 2 && parses == 0) {
+                        bad("concurrent-prepare-traffic", format!("two concurrent prepares ({} already cached) on connection {} sent {:?}", hits, id, new));
+                    }
+                    refs.get_mut(&id).unwrap().keys.insert(ka.clone());
+                    refs.get_mut(&id).unwrap().keys.insert(kb.clone());
+                    for (stmt, key) in [(sa, &ka), (sb, &kb)] {
+                        let n = (1..=9).filter(|i| q.contains(&format!("${}", i))).count();
+                        let want: Vec<u32> = (0..n).map(|i| key.1.get(i).copied().unwrap_or(25)).collect();
+                        let got: Vec<u32> = stmt.params().iter().map(|t| t.oid()).collect();
+                        if got != want {
+                            bad("wrong-statement", format!("concurrent prepare for {:?} returned a statement with parameter types {:?}", key, got));
+                        }
+                    }
+                    if o.statement_cache.size() != refs[&id].keys.len() {
+                        bad("cache-size", format!("after two concurrent prepares the statement cache of connection {} reports size {} but {} keys are cached", id, o.statement_cache.size(), refs[&id].keys.len()));
+                    }
+                } else {
+                    trace!("  concurrent prepare failed");
+                    // which of the two keys got cached is not determined: forget both
+                    // and re-synchronise the reference with a cache clear
+                    o.statement_cache.clear();
+                    refs.get_mut(&id).unwrap().keys.clear();
                 }
             }
             Op::CacheClear(j) => {
